@@ -183,7 +183,12 @@ class _RecBufferedWriter(io.BufferedWriter):
     def write(self, b):
         if self._rec.before_write:
             self._rec.before_write(self._hid, b)
+        try:
+            off = self.tell()
+        except Exception:  # noqa
+            off = -1
         self._rec.py.append((self._hid, len(b), threading.current_thread().name))
+        self._rec.pydata.append((self._hid, off, bytes(b)))
         return super().write(b)
 
 
@@ -195,7 +200,12 @@ class _RecBufferedRandom(io.BufferedRandom):
     def write(self, b):
         if self._rec.before_write:
             self._rec.before_write(self._hid, b)
+        try:
+            off = self.tell()
+        except Exception:  # noqa
+            off = -1
         self._rec.py.append((self._hid, len(b), threading.current_thread().name))
+        self._rec.pydata.append((self._hid, off, bytes(b)))
         return super().write(b)
 
 
@@ -206,6 +216,7 @@ class RecordingOpen:
     def __init__(self, only=None):
         self.raw = []
         self.py = []
+        self.pydata = []
         self.handles = []
         self.only = only              # restrict recording to this path
         self.before_write = None
@@ -222,6 +233,19 @@ class RecordingOpen:
         if '+' in mode:
             return _RecBufferedRandom(raw, self, hid)
         return _RecBufferedWriter(raw, self, hid)
+
+    def replay_py_prefix(self, n_py, cut=None):
+        """File content if the first n_py Python-level writes had each reached the file atomically."""
+        buf = bytearray()
+        for i, (hid, off, data) in enumerate(self.pydata[:n_py]):
+            if off < 0:
+                continue
+            if i == n_py - 1 and cut is not None:
+                data = data[:cut]
+            if off > len(buf):
+                buf.extend(bytes(off - len(buf)))
+            buf[off:off + len(data)] = data
+        return bytes(buf)
 
     def replay_prefix(self, n_raw, cut=None):
         """File content after the first n_raw raw writes (the last one cut to `cut` bytes)."""
